@@ -87,7 +87,7 @@ def path (i : Nat) : List Nat := [0, i]
 
 /-- The model's final system for the scenario; `ready` = where the watcher is when the
     failure's own notifications are sent. -/
-def finalSys (sc : Scen) (ready : Bool) (finishFirst : Bool := false) : Option Sys :=
+def finalSys (sc : Scen) (ready : Bool) (finishFirst : Bool := false) (modes : List Nat := []) : Option Sys :=
   let base := mkSys sc
   let vs := (victims sc).map (fun i => (path i, ready))
   let (ev, dst) := raceEv sc.live
@@ -106,9 +106,26 @@ def finalSys (sc : Scen) (ready : Bool) (finishFirst : Bool := false) : Option S
     let s2 := { s1 with inflight := some { ev := ev, api := true, pending := [], ok := !(critOf sc sc.victim) } }
     some (settle 64 (fail sc.kind s2 vs))
   | "burst" =>
-    let s2 := { base with inflight := some { ev := ev, api := true, pending := (indices sc).map (fun i => (path i, dst)), ok := true } }
-    let s3 := irun s2 ((indices sc).map (fun _ => Label.reply true) ++ (if finishFirst then [Label.finish] else []))
-    some (settle 64 (fail sc.kind s3 vs))
+    -- `modes`: per victim, how its own reply's `go updateTaskState(dst)` interleaves with the failure's
+    -- `go updateTaskState(ERROR)`: 0 = reply first; 1 = failure first, the reply overwrites task.state and role;
+    -- 2 = interleaved (task.state keeps the failure's value, the role gets the reply's); 3, 4 see below
+    let vm := (victims sc).zip (modes ++ (victims sc).map (fun _ => 0))
+    let late := vm.filter (fun x => x.2 ≠ 0)
+    let early := (indices sc).filter (fun i => !(late.any (fun x => x.1 == i)))
+    let s2 := { base with inflight := some { ev := ev, api := true, pending := early.map (fun i => (path i, dst)), ok := true } }
+    let s3 := irun s2 (early.map (fun _ => Label.reply true) ++ (if finishFirst then [Label.finish] else []))
+    let s4 := fail sc.kind s3 vs
+    let s5 := late.foldl (fun (s : Sys) (x : Nat × Nat) =>
+      let own := ownState s (path x.1) (roleStateAt s.f (path x.1))
+      let s' := setLeaf s (path x.1) dst true
+      let s' := if (x.2 == 2 || x.2 == 4) && !(effect sc.kind s3.env.st).roleOnly then { s' with roleOnly := (path x.1, own) :: s'.roleOnly } else s'
+      -- 3, 4: as 1, 2, but the failure's forward to the root (`parent.updateState(ERROR)`: no recompute) comes last
+      if (x.2 == 3 || x.2 == 4) && critOf sc x.1 && (effect sc.kind s3.env.st).st == some TState.ERROR then
+        match s'.f with
+        | .agg _ su kids next => { s' with f := .agg .ERROR su kids next }
+        | _ => s'
+      else s') s4
+    some (settle 64 s5)
   | _ => none
 
 def racing (sc : Scen) : Bool := sc.instant != "idle"
@@ -208,17 +225,21 @@ def processLine (line : String) : String :=
       | some sr, some sb =>
         let oR := toString (obsOf sc sr)
         let oB := toString (obsOf sc sb)
-        -- burst: whether the transition ends before or after the failure is handled is not determined
-        let alt (ready : Bool) : String :=
+        -- burst: whether the transition ends before or after the failure is handled, and how each victim's own
+        -- reply interleaves with its failure, is not determined: accept any of these schedules (monitor style)
+        let nv := (victims sc).length
+        let modeLists : List (List Nat) :=
           if sc.instant == "burst" then
-            match finalSys sc ready true with
-            | some x => toString (obsOf sc x)
-            | none => oR
-          else oR
-        let oR2 := alt true
-        let oB2 := alt false
-        let isBusy := impl != oR && impl != oR2 && (impl == oB || impl == oB2)
-        let model := if impl == oR then oR else if impl == oR2 then oR2 else if impl == oB then oB else if impl == oB2 then oB2 else oR
+            (List.range nv).foldl (fun acc _ => acc.flatMap (fun l => [l ++ [0], l ++ [1], l ++ [2], l ++ [3], l ++ [4]])) [[]]
+          else [[]]
+        let variants (ready : Bool) : List String :=
+          if sc.instant == "burst" then
+            modeLists.flatMap fun ms => [false, true].filterMap fun ff => (finalSys sc ready ff ms).map (fun x => toString (obsOf sc x))
+          else []
+        let vR := oR :: variants true
+        let vB := oB :: variants false
+        let isBusy := !(vR.contains impl) && vB.contains impl
+        let model := if vR.contains impl || vB.contains impl then impl else oR
         match SExp.parse impl with
         | some io =>
           let spec := specOn sc io
